@@ -180,3 +180,34 @@ def _c20_replay(prop, path):
 
 
 TABLE["C20"] = dict(run=_c20, replay=_c20_replay)
+
+# ------------------------------------------------------------------------------------------
+POLICY_INV = "TypeOK ExactlyConforming RefusesMalformed MeansTheSame ExportCase"
+POLICY_ACTIONS = ("Convert", "ExactBytes", "Rtmrs", "AnyMrTd", "MinTee", "MinQe", "MinPce", "Xfam", "TdAttributes", "Finish")
+
+
+def _policy_cfg(tier, focus):
+    f = "{" + ", ".join('"%s"' % d for d in focus) + "}"
+    return "CONSTANTS\n  K = 1\n  Focus = %s\nSPECIFICATION Spec\nINVARIANTS %s\nCHECK_DEADLOCK FALSE\n" % (f, POLICY_INV)
+
+
+POLICY_FOCUS_QUICK = ["mrTd", "anyMrTd", "rtmrs", "minTee", "minQe", "minPce", "reportData", "mrOwner", "mrOwnerConfig"]
+POLICY_FOCUS_THOROUGH = ["qeVendorId", "mrSeam", "tdAttributes", "xfam", "mrTd", "mrConfigId", "mrOwner", "mrOwnerConfig", "reportData",
+                         "rtmrs", "anyMrTd", "minQe", "minPce", "minTee", "xfamBits", "tdAttrBits"]
+
+
+def _policy(prop, tier, mode):
+    focus = POLICY_FOCUS_THOROUGH if tier == "thorough" else POLICY_FOCUS_QUICK
+    code, _, _ = smallfam.run(prop, tier, mc_module="Policy_MC", mc_cfg=_policy_cfg(tier, focus), driver="policy", trace_module="Policy_Trace",
+                              trace_consts="  K = 0\n  Focus = {}\n", key_fn=_key_generic,
+                              case_fn=lambda cases, t: [c for c in cases if c["mode"] == mode],
+                              required_actions=POLICY_ACTIONS,
+                              assumptions=["quotes are structurally valid generated quotes with seeded random contents; expectations are derived from the quote by the stated rule of each abstract state",
+                                           "the fixed-0 / fixed-1 bit sets of XFAM and TD_ATTRIBUTES are the repository's constants, written as bit sets in spec/Policy.tla"])
+    return code
+
+
+TABLE["C08"] = dict(run=lambda p, t: _policy(p, t, "options"),
+                    replay=lambda p, path: smallfam.replay(p, path, driver="policy", trace_module="Policy_Trace", trace_consts="  K = 0\n  Focus = {}\n"))
+TABLE["C14"] = dict(run=lambda p, t: _policy(p, t, "policy"),
+                    replay=lambda p, path: smallfam.replay(p, path, driver="policy", trace_module="Policy_Trace", trace_consts="  K = 0\n  Focus = {}\n"))
